@@ -129,3 +129,86 @@ func H15_pair() {
 		vrtReach("C15.probed_after_close")
 	}
 }
+
+// H15_large_request: producer requests that are large against the ring (16384 bytes). (a) 6000 bytes are
+// unread, the producer asks for 12000 - more than one read block, and more than is free - and parks; the
+// consumer then commits 2000 bytes, after which the request fits: the producer must be woken and finish
+// (round-8 change C15-15: consumer-side commits skipped the wake-up whenever a whole read block was free
+// before the commit, "the producer only parks when less than a block is left"). (b) a request larger than
+// the whole ring can never be satisfied: it waits until the ring is closed and then returns, and every
+// later call still returns (round-8 change C15-16: such a request was refused from inside the wait loop
+// with the producer's mutex still locked). Exploring scheduler.
+func H15_large_request() {
+	bf, err := newBuffer(1)
+	if err != nil {
+		panic(err)
+	}
+	var c int64
+	switch vrtChoice("pos", 3) {
+	case 1:
+		c = bf.size - 100
+	case 2:
+		c = 3*bf.size + 5000
+	}
+	oversize := vrtBool("larger_than_the_ring")
+	unread := int64(6000)
+	bf.cseq.set(c)
+	bf.pseq.set(c + unread)
+	bf.pseq.gate = c
+	n := 12000
+	if oversize {
+		n = int(bf.size) + 1
+	}
+	pop := vrtChoice("pop", 2)
+	cop := vrtChoice("cop", 3)
+	var perr, cerr error
+	data := make([]byte, n)
+	vrtGo(func() {
+		if pop == 0 {
+			_, perr = bf.Write(data)
+		} else {
+			_, _, perr = bf.WriteWait(n)
+			if perr == nil {
+				_, perr = bf.WriteCommit(n)
+			}
+		}
+	})
+	vrtGo(func() {
+		switch cop {
+		case 0:
+			_, cerr = bf.ReadCommit(2000)
+		case 1:
+			// (a Read that reaches the end of the ring array returns what lies before it: read on)
+			for got := 0; got < 2000 && cerr == nil; {
+				var k int
+				k, cerr = bf.Read(make([]byte, 2000-got))
+				got += k
+			}
+		case 2:
+			var b []byte
+			b, cerr = bf.ReadPeek(2000)
+			if cerr == nil {
+				_, cerr = bf.ReadCommit(len(b))
+			}
+		}
+		if oversize {
+			bf.Close()
+		}
+	})
+	vrtJoin() // deadlock here = somebody can never proceed
+	vrtAssert("C15.consumer_got_data", cerr == nil)
+	if oversize {
+		vrtAssert("C15.oversized_request_ends_with_the_ring", perr != nil)
+	} else {
+		vrtAssert("C15.producer_wrote", perr == nil)
+		vrtAssert("C15.large_request_accounted", bf.pseq.get()-bf.cseq.get() >= unread-2000+int64(n)-100)
+	}
+	// afterwards every call still returns (no mutex was left locked)
+	vrtAssert("C15.close_again_returns", bf.Close() == nil)
+	_, e1 := bf.Write([]byte{9})
+	vrtAssert("C15.write_after_close_eof", vrtIsEOF(e1))
+	_, e2 := bf.ReadCommit(1)
+	_ = e2
+	vrtAssert("C15.close_third_time_returns", bf.Close() == nil)
+	vrtReach("C15.large_request")
+}
